@@ -30,6 +30,7 @@ type Clause struct {
 	Info  *types.Info
 	Label string // stable label: kind + ordinal within the contract
 	unstatable bool // names a local the function does not define (reported as a failed obligation)
+	Locals map[string]*types.Var // locals of nested blocks the clause names (through gh_local)
 }
 
 type LoopSpec struct {
@@ -66,6 +67,7 @@ type Contract struct {
 	Cases    []string
 	Notes    []string
 	Used     bool
+	InitVar  string // "init <Var>": the contract is about the initializer of a package-level variable
 	Iface    string // "iface <signature>": the contract is on an interface method; the text is the stub's parameter and result lists, receiver first: "(self T, a A) (r R)"
 }
 
@@ -105,7 +107,7 @@ type Lemma struct {
 var clauseKeywords = map[string]bool{
 	"func": true, "props": true, "safety": true, "requires": true, "ensures": true,
 	"modifies": true, "loop": true, "trusted": true, "pure": true, "opaque": true, "ghost": true,
-	"global": true, "lemma": true, "assumes": true, "import": true, "note": true, "cases": true, "end": true, "trustframe": true, "ensures-local": true, "defines": true, "precall": true, "closure": true, "iface": true,
+	"global": true, "lemma": true, "assumes": true, "import": true, "note": true, "cases": true, "end": true, "trustframe": true, "ensures-local": true, "defines": true, "precall": true, "closure": true, "iface": true, "init": true,
 }
 
 var funcKeyRe = regexp.MustCompile(`^(?:\(\s*\*?\s*(\w+)\s*\)\s*\.\s*(\w+)|(\w+)\s*\.\s*(\w+)|(\w+))`)
@@ -191,6 +193,16 @@ func parseSpecFile(path, relDir string) (*PkgSpec, error) {
 				return nil, fmt.Errorf("%s:%d: duplicate contract for %s", path, it.line, key)
 			}
 			cur = &Contract{Key: key, File: path, Line: it.line, Safety: map[string]bool{}, Loops: map[int]*LoopSpec{}}
+			curLemma = nil
+			ps.Contracts[key] = cur
+			ps.Order = append(ps.Order, key)
+		case "init":
+			name := strings.TrimSpace(it.text)
+			key := "init." + name
+			if _, dup := ps.Contracts[key]; dup {
+				return nil, fmt.Errorf("%s:%d: duplicate contract for %s", path, it.line, key)
+			}
+			cur = &Contract{Key: key, InitVar: name, File: path, Line: it.line, Safety: map[string]bool{}, Loops: map[int]*LoopSpec{}}
 			curLemma = nil
 			ps.Contracts[key] = cur
 			ps.Order = append(ps.Order, key)
@@ -512,7 +524,7 @@ var builtinRename = map[string]string{
 	"mapLen": "gh_mapLen", "allocated": "gh_allocated", "pureOf": "gh_pureOf",
 	"uf": "gh_uf", "ufb": "gh_ufb", "ufr": "gh_ufr", "seqOf": "gh_seqOf", "wrote": "gh_wrote", "div": "gh_div", "mod": "gh_mod",
 	"sameElems": "gh_sameElems", "abs": "gh_abs", "min": "gh_min", "max": "gh_max",
-	"count": "gh_count", "sum": "gh_sum", "upd": "gh_upd", "hdr": "gh_hdr", "kvDomain": "gh_kvDomain", "kvState": "gh_kvState", "kvHas": "gh_kvHas", "kvVal": "gh_kvVal", "kvWrites": "gh_kvWrites", "bytesId": "gh_bytesId", "keyOf": "gh_keyOf", "sameRef": "gh_sameRef", "defined": "gh_defined", "argIs": "gh_argIs", "argAs": "gh_argAs", "btHas": "gh_btHas", "btNil": "gh_btNil", "btBytes": "gh_btBytes", "arrOf": "gh_arrOf", "anyOf": "gh_anyOf", "unavail": "gh_unavail", "errIs": "gh_errIs", "mapEq": "gh_mapEq", "emptyMap": "gh_emptyMap",
+	"count": "gh_count", "sum": "gh_sum", "upd": "gh_upd", "hdr": "gh_hdr", "kvDomain": "gh_kvDomain", "kvState": "gh_kvState", "kvHas": "gh_kvHas", "kvVal": "gh_kvVal", "kvWrites": "gh_kvWrites", "bytesId": "gh_bytesId", "keyOf": "gh_keyOf", "sameRef": "gh_sameRef", "defined": "gh_defined", "argIs": "gh_argIs", "argAs": "gh_argAs", "btHas": "gh_btHas", "btNil": "gh_btNil", "btBytes": "gh_btBytes", "arrOf": "gh_arrOf", "ordDet": "gh_ordDet", "anyOf": "gh_anyOf", "unavail": "gh_unavail", "errIs": "gh_errIs", "mapEq": "gh_mapEq", "emptyMap": "gh_emptyMap",
 }
 
 var identCallRe = regexp.MustCompile(`\b([A-Za-z_]\w*)\s*\(`)
@@ -587,6 +599,7 @@ func gh_uf(name string, args ...any) int  { return 0 }
 func gh_ufb(name string, args ...any) bool { return false }
 func gh_ufr[T any](name string, args ...any) T { var z T; return z }
 func gh_argAs[T any](i int) T { var z T; return z }
+func gh_local[T any](name string) T { var z T; return z }
 func gh_div(a, b int) int                 { return a / b }
 func gh_mod(a, b int) int                 { return a % b }
 func gh_abs(a int) int                    { if a < 0 { return -a }; return a }
@@ -608,6 +621,7 @@ func gh_btNil(m any, k string) bool { return false }
 func gh_btBytes(m any, k string) int { return 0 }
 func gh_argIs(i int, a any) bool            { return false }
 func gh_arrOf[T any](x []T) *T            { return nil }
+func gh_ordDet[T any](x []T) bool         { return false }
 func gh_anyOf[T any](x T) T              { return x }
 func gh_count(lo, hi int, f func(int) bool) int { return 0 }
 func gh_unavail(err error) bool           { return err != nil }
